@@ -315,6 +315,287 @@ def hexify_layout(prog, rep):
     rep.check(seen == {"hi": 1, "lo": 1, "nul": 1}, "T2-layout", "hexify: one high-nibble store, one low-nibble store, one NUL store", f.loc, "%s" % seen,
               function="hexify", construct="stores")
 
+# --------------------------------------------------------------------------
+# T5: the base-64 group arithmetic (bit provenance, sa/finite.py)
+# --------------------------------------------------------------------------
+def _int_locals(f):
+    out = {}
+    for e in f.all_elems():
+        if e.cls == "DeclStmt":
+            for d in e.decls or []:
+                if isinstance(d, dict) and d.get("kind") == "local":
+                    t = f.unit.types.get(d.get("ty")) or {}
+                    if t.get("kind") in ("int", "enum", "bool") and t.get("size"):
+                        out[("v", d["name"], d["id"])] = (bool(t.get("signed", True)), 8 * t["size"])
+    return out
+
+
+def _loop_of(f, var):
+    """(head block, body entry block) of the `while (var)` loop."""
+    for b in f.blocks.values():
+        if b.term_cls == "WhileStmt" and b.cond is not None and norm(b.cond) == var and len(b.succs) == 2 and b.succs[0] is not None:
+            return b, b.succs[0]
+    return None, None
+
+
+def t5_b64(prog, rep):
+    """The arithmetic of the base-64 codec, for every input: one iteration of each routine's main loop is evaluated in the
+    bit-provenance domain (sa/finite.py: every bit of the 24-bit accumulator is 0 or a named bit of a named input byte /
+    input character; the inner loops have constant trip counts and unroll under constant propagation of their counters; the
+    remaining length is the interval [3, inf) or the constant 1 or 2).  Encoder: an iteration reads the next min(len, 3)
+    bytes, stores the four characters b64chars[sextet k of (b0 << 16 | b1 << 8 | b2)] with '=' in the places RFC 4648
+    pads, advances the output by 4 and the length by what it read; after the loop a NUL.  Decoder: an iteration reads four
+    characters, stores the three bytes of (p0 << 18 | p1 << 12 | p2 << 6 | p3) where p is the 6-bit table position
+    (which is 0 for '='), advances input by 4, output and *outlen by 3.  Per-iteration exactness plus these advances is the
+    inductive step of "encoding is RFC 4648 and decoding returns the original" over all lengths."""
+    from .. import finite
+    from ..finite import Bits, Iv
+    up = "util/b64encode.c"
+    enc = prog.func(up, "b64encode")
+    dec = prog.func(up, "b64decode")
+    if enc is None or dec is None:
+        raise cdb.AnalysisBroken("anchor missing: b64encode / b64decode")
+    tab = [g for g in prog.unit(up).globals if g["name"] == "b64chars"]
+    if not tab:
+        raise cdb.AnalysisBroken("anchor missing: b64chars")
+
+    class TabChar:
+        def __init__(self, idx):
+            self.idx = idx
+
+        def __repr__(self):
+            return "b64chars[%r]" % (self.idx,)
+
+    # ---------------- encoder
+    pin, pout, plen = [("v", q["name"], q["id"]) for q in enc.params[:3]]
+    head, body = _loop_of(enc, plen)
+    if head is None:
+        raise cdb.AnalysisBroken("b64encode: the `while (len)` loop was not found")
+    tracked = _int_locals(enc)
+    tracked.update({pin: (False, 64), pout: (False, 64), plen: (False, 64)})
+
+    def grp_sextet(nbytes, k):
+        """bits (LSB first) of sextet k of the big-endian 24-bit group made of the first nbytes input bytes"""
+        grp = [0] * 24
+        for j in range(nbytes):
+            for i in range(8):
+                grp[16 - 8 * j + i] = ("in%d" % j, i)
+        return tuple(grp[18 - 6 * k: 24 - 6 * k])
+    for label, lenv, nread in (("one byte left", 1, 1), ("two bytes left", 2, 2), ("three or more left", Iv(3), 3)):
+        reads, stores = [], []
+
+        def rd(n, env):
+            a = finite.ev(n[1], env) if n[0] == "*" else None
+            if n[0] == "[]" and n[1][0] == "v" and n[1][1] == "b64chars":
+                i = finite.ev(n[2], env)
+                return TabChar(i) if isinstance(i, Bits) else None
+            if n[0] == "[]":
+                b, i = finite.ev(n[1], env), finite.ev(n[2], env)
+                a = b + i if isinstance(b, int) and isinstance(i, int) else None
+            if not isinstance(a, int):
+                return None
+            if a not in reads:
+                reads.append(a)
+            return Bits.sym("in%d" % a, 8)
+
+        def st(tgt, v, env, e):
+            a = finite.ev(tgt[1], env) if tgt[0] == "*" else None
+            stores.append((a, v))
+        W = finite.Walker(enc, tracked, lambda e: e.block.id == head.id, store=st)
+        env = {k: None for k in tracked}
+        env.update({pin: 0, pout: 0, plen: lenv, "$read": rd})
+        try:
+            outs = W.run(body, 0, env)
+        except finite.Budget:
+            raise cdb.AnalysisBroken("b64encode: evaluation of one iteration did not finish")
+        ok = len(outs) == 1 and outs[0][0] == "stop"
+        why = "the iteration does not come back to the loop test on a single path (%d outcomes)" % len(outs)
+        if ok:
+            e2 = outs[0][2]
+            want = []
+            for k in range(4):
+                want.append((k, grp_sextet(nread, k)) if k <= nread else (k, "="))
+            got = []
+            for a, v in stores:
+                if isinstance(v, TabChar):
+                    got.append((a, tuple(v.idx.resize(6).b) if all(x == 0 for x in v.idx.b[6:]) else "wide"))
+                elif v == ord("="):
+                    got.append((a, "="))
+                else:
+                    got.append((a, v))
+            newlen = e2.get(plen)
+            lenok = (newlen == 0) if nread < 3 else (isinstance(newlen, Iv) and newlen.lo == 0 and newlen.hi is None)
+            ok = got == want and sorted(reads) == list(range(nread)) and e2.get(pin) == nread and e2.get(pout) == 4 and lenok
+            why = "stores %s (expected %s); input bytes read %s, input advanced by %s, output by %s, length left %s" % (got, want, sorted(reads), e2.get(pin), e2.get(pout), newlen)
+        rep.check(ok, "T5-b64", "b64encode, %s: the four characters are RFC 4648's for the group, cursors advance by what was used" % label, enc.loc, why,
+                  function="b64encode", construct="group:" + label)
+    # after the loop: the terminator at the output cursor
+    stores = []
+    W = finite.Walker(enc, tracked, lambda e: False, store=lambda tgt, v, env, e: stores.append((finite.ev(tgt[1], env) if tgt[0] == "*" else None, v)))
+    env = {k: None for k in tracked}
+    env.update({pin: 0, pout: 0, plen: 0})
+    outs = W.run(enc.entry, 0, env)
+    rep.check(len(outs) <= 1 and stores == [(0, 0)], "T5-b64", "b64encode: with nothing left, exactly a NUL is stored at the output cursor", enc.loc, "stores %s" % stores,
+              function="b64encode", construct="terminator")
+
+    # ---------------- decoder
+    din, dilen, dout, dolen = [("v", q["name"], q["id"]) for q in dec.params[:4]]
+    head, body = _loop_of(dec, dilen)
+    if head is None:
+        raise cdb.AnalysisBroken("b64decode: the `while (inlen)` loop was not found")
+    tracked = _int_locals(dec)
+    OL = ("*", dolen)
+    tracked.update({din: (False, 64), dout: (False, 64), dilen: (False, 64), OL: (False, 64)})
+    reads, stores = [], []
+
+    def rd2(n, env):
+        if n[0] == "[]":
+            b, i = finite.ev(n[1], env), finite.ev(n[2], env)
+            a = b + i if isinstance(b, int) and isinstance(i, int) else None
+        else:
+            a = finite.ev(n[1], env)
+        if not isinstance(a, int):
+            return None
+        if a not in reads:
+            reads.append(a)
+        return ("char", a)
+
+    class TabPtr:
+        def __init__(self, ch):
+            self.ch = ch
+
+        def __sub__(self, o):
+            if o == "b64chars-base" and isinstance(self.ch, tuple):
+                # the position of a validated character in the table: 0..64, 64 for '='; its low six bits are the character's value
+                return Bits.sym("p%d" % self.ch[1], 7, 64)
+            raise finite.Undecided()
+
+    def call(n, env):
+        if n[1] == "strchr" and len(n) == 4 and n[2][0] == "v" and n[2][1] == "b64chars":
+            return TabPtr(finite.ev(n[3], env))
+        return None
+
+    def st2(tgt, v, env, e):
+        if tgt[0] == "[]":
+            b, i = finite.ev(tgt[1], env), finite.ev(tgt[2], env)
+            a = b + i if isinstance(b, int) and isinstance(i, int) else None
+        else:
+            a = finite.ev(tgt[1], env) if tgt[0] == "*" else None
+        # a store into a byte keeps the low eight bits
+        w = 8 * ((dec.unit.types.get(e.kid(0).ty) or {}).get("size") or 0)
+        if isinstance(v, Bits) and w:
+            v = v.resize(w).resize(max(w, 8))
+        stores.append((a, v))
+    tabv = [k for k in [("v", "b64chars", g.get("id")) for g in tab]]
+    W = finite.Walker(dec, tracked, lambda e: e.block.id == head.id, store=st2)
+    env = {k: None for k in tracked}
+    env.update({din: 0, dout: 0, dilen: Iv(4), OL: 0, "$read": rd2, "$call": call})
+    for e in dec.all_elems():
+        if e.cls == "DeclRefExpr" and e.decl and e.decl.get("name") == "b64chars":
+            env[norm(e)] = "b64chars-base"
+    try:
+        outs = W.run(body, 0, env)
+    except finite.Budget:
+        raise cdb.AnalysisBroken("b64decode: evaluation of one iteration did not finish")
+    ok = len(outs) == 1 and outs[0][0] == "stop"
+    why = "the iteration does not come back to the loop test on a single path (%d outcomes)" % len(outs)
+    if ok:
+        e2 = outs[0][2]
+        grp = [0] * 24
+        for j in range(4):
+            for i in range(6):
+                grp[18 - 6 * j + i] = ("p%d" % j, i)
+        want = [(k, tuple(grp[16 - 8 * k: 24 - 8 * k])) for k in range(3)]
+        got = [(a, tuple(v.resize(8).b) if isinstance(v, Bits) and all(x == 0 for x in v.b[8:]) else v) for a, v in stores]
+        il = e2.get(dilen)
+        ok = got == want and sorted(reads) == [0, 1, 2, 3] and e2.get(din) == 4 and e2.get(dout) == 3 and e2.get(OL) == 3 and isinstance(il, Iv) and il.lo == 0 and il.hi is None
+        why = "stores %s (expected %s); characters read %s, input advanced by %s, output by %s, *outlen by %s, inlen left %s" % (got, want, sorted(reads), e2.get(din), e2.get(dout), e2.get(OL), il)
+    rep.check(ok, "T5-b64", "b64decode: four characters give the three bytes of their 6-bit values, most significant first; cursors and *outlen advance by 4 / 3 / 3", dec.loc, why,
+              function="b64decode", construct="group")
+
+
+def t5_hex(prog, rep):
+    """unhexify's conversion loop, for every input (same domain as T5-b64): iteration i reads in[2i] and in[2i+1] and leaves
+    out[i] == (low four bits of the first character's table position) << 4 | (low four bits of the second's); the table
+    has the digit of k & 15 at position k (T2), so that is the byte the two digits denote."""
+    from .. import finite
+    from ..finite import Bits, Iv
+    up = "util/hexify.c"
+    f = prog.func(up, "unhexify")
+    if f is None:
+        raise cdb.AnalysisBroken("anchor missing: unhexify")
+    pin, pout, plen = [("v", q["name"], q["id"]) for q in f.params[:3]]
+    tracked = _int_locals(f)
+    tracked.update({pin: (False, 64), pout: (False, 64), plen: (False, 64)})
+    heads = [b for b in f.blocks.values() if b.term_cls == "ForStmt" and b.cond is not None and norm(b.cond)[0] == "<" and norm(b.cond)[2] == plen and norm(b.cond)[1][0] == "v"]
+    if len(heads) != 1:
+        raise cdb.AnalysisBroken("unhexify: the conversion loop `for (i ...; i < len; ...)` was not found (%d candidates)" % len(heads))
+    head = heads[0]
+    ivar = norm(head.cond)[1]
+
+    class TabPtr:
+        def __init__(self, ch):
+            self.ch = ch
+
+        def __sub__(self, o):
+            if o == "hexchars-base" and isinstance(self.ch, tuple):
+                return Bits.sym("p%d" % self.ch[1], 6, 64)       # a validated character's position in the 32-entry table
+            raise finite.Undecided()
+    for i0 in (0, 3):
+        mem = {}
+        reads = []
+
+        def rd(n, env):
+            if n[0] == "[]":
+                b, i = finite.ev(n[1], env), finite.ev(n[2], env)
+                base = n[1]
+            else:
+                b, i, base = finite.ev(n[1], env), 0, n[1]
+            if not isinstance(b, int) or not isinstance(i, int):
+                return None
+            if root_var(base) is not None and root_var(base)[1:] == pout[1:]:
+                return mem.get(b + i)
+            if b + i not in reads:
+                reads.append(b + i)
+            return ("char", b + i)
+
+        def call(n, env):
+            if n[1] == "strchr" and len(n) == 4 and n[2][0] == "v" and n[2][1] == "hexchars":
+                return TabPtr(finite.ev(n[3], env))
+            return None
+
+        def st(tgt, v, env, e):
+            if tgt[0] == "[]":
+                b, i = finite.ev(tgt[1], env), finite.ev(tgt[2], env)
+                a = b + i if isinstance(b, int) and isinstance(i, int) else None
+            else:
+                a = finite.ev(tgt[1], env) if tgt[0] == "*" else None
+            w = 8 * ((f.unit.types.get(e.kid(0).ty) or {}).get("size") or 0)
+            if isinstance(v, Bits) and w:
+                v = v.resize(w)
+            mem[a] = v
+        W = finite.Walker(f, tracked, lambda e: e.block.id == head.id, store=st)
+        env = {k: None for k in tracked}
+        env.update({pin: 0, pout: 0, plen: Iv(i0 + 1), ivar: i0, "$read": rd, "$call": call})
+        for e in f.all_elems():
+            if e.cls == "DeclRefExpr" and e.decl and e.decl.get("name") == "hexchars":
+                env[norm(e)] = "hexchars-base"
+        body = head.succs[0]
+        try:
+            outs = W.run(body, 0, env)
+        except finite.Budget:
+            raise cdb.AnalysisBroken("unhexify: evaluation of one iteration did not finish")
+        ok = len(outs) == 1 and outs[0][0] == "stop"
+        why = "%d outcomes" % len(outs)
+        if ok:
+            e2 = outs[0][2]
+            want = Bits([("p%d" % (2 * i0 + 1), k) for k in range(4)] + [("p%d" % (2 * i0), k) for k in range(4)])
+            got = mem.get(i0)
+            ok = got == want and set(mem) == {i0} and sorted(reads) == [2 * i0, 2 * i0 + 1] and e2.get(ivar) == i0 + 1 and e2.get(pin) == 0 and e2.get(pout) == 0
+            why = "out[%d] = %r (expected %r); stores at %s, characters read %s, index after the step %s" % (i0, got, want, sorted(mem, key=repr), sorted(reads), e2.get(ivar))
+        rep.check(ok, "T5-hex", "unhexify, iteration %d: out[i] is the byte the two digits in[2i], in[2i+1] denote" % i0, f.loc, why, function="unhexify", construct="pair:%d" % i0)
+
+
 
 def t2_padding(prog, rep):
     """b64decode accepts exactly the strings b64encode can produce: '=' only as a suffix of at most two characters.  The
@@ -402,6 +683,53 @@ def t3_escape(prog, rep):
     first = [r for r in reads if r not in esc]
     okq = len(first) == 1 and any(op == "==" and R == Q for b in f.blocks.values() if b.cond is not None for op, L, R, _, _ in cond_atoms(b.cond, True))
     rep.check(okq, "T3-escape", "the closing quote is tested on the unescaped read", f.loc, "", function=f.name, construct="escape-quote")
+
+
+def t3_unicode(prog, rep):
+    """Names written with \\u escapes never match: in match_str, every way through the 'u' arm of the escape switch either
+    answers `end` or stores 0 into *foundit before it rejoins the other arms (the verdict is sticky: nothing stores 1 after the
+    start).  A comparison of a made-up character against the key does not do it -- once the key is exhausted it compares equal."""
+    u = prog.unit("util/json.c")
+    f = u.func("match_str")
+    if f is None:
+        raise cdb.AnalysisBroken("anchor missing: match_str")
+    fp = [p for p in f.params if (u.types.get(p["ty"]) or {}).get("kind") == "ptr" and (u.types.get((u.types.get(p["ty"]) or {}).get("pointee")) or {}).get("kind") == "int"
+          and (u.types.get((u.types.get(p["ty"]) or {}).get("pointee")) or {}).get("size") == 4]
+    if len(fp) != 1:
+        raise cdb.AnalysisBroken("match_str: the int * verdict parameter was not found")
+    V = ("*", ("v", fp[0]["name"], fp[0]["id"]))
+    ub = [b for b in f.blocks.values() if ord("u") in b.case_values()]
+    others = [b for b in f.blocks.values() if b.case_values() and ord("u") not in b.case_values()]
+    if len(ub) != 1 or not others:
+        raise cdb.AnalysisBroken("match_str: the escape switch with its 'u' arm was not found")
+
+    def clears(blk):
+        return any(e.is_assign and e.op == "=" and norm(e.kid(0)) == V and norm(e.kid(1)) == ("c", 0) for e in blk.elems)
+
+    def returns(blk):
+        return any(e.cls == "ReturnStmt" for e in blk.elems)
+    seen, work = set(), [ub[0].id]
+    while work:
+        b = work.pop()
+        if b in seen:
+            continue
+        seen.add(b)
+        blk = f.blocks[b]
+        if clears(blk) or returns(blk):
+            continue
+        work.extend(x for x in blk.succs if x is not None)
+    # where the other arms come together with this one
+    heads = set(b.id for b in f.blocks.values() if ub[0].id in [x for x in b.succs if x is not None] and b.term_cls == "SwitchStmt")
+    common = set()
+    for o in others:
+        common |= f.reach_from(o.id, stop=heads) | {o.id}
+    arm_only = seen - common
+    leak = [b for b in seen & common if not (clears(f.blocks[b]) or returns(f.blocks[b]))]
+    ones = [e for e in f.all_elems() if e.is_assign and norm(e.kid(0)) == V and norm(e.kid(1)) != ("c", 0)]
+    sticky = len(ones) == 1 and not f.edge_conds(ones[0]) and all(f.dominates(ones[0], e) for e in f.all_elems() if e.is_assign and norm(e.kid(0)) == V and e is not ones[0])
+    rep.check(not leak and sticky, "T3-escape", "match_str: a \\u escape in a name makes the name not match", ub[0].elems[0].where if ub[0].elems else f.loc,
+              ("the 'u' arm rejoins the other arms at block(s) %s without *%s = 0 having been stored" % (sorted(leak), fp[0]["name"])) if leak else
+              ("" if sticky else "the verdict is set to 1 other than once at the start"), function=f.name, construct="escape-u-nomatch")
 
 
 SEPS = (ord(","), ord(":"))
@@ -707,8 +1035,15 @@ def run(tier):
         t4(prog, rep)
         t4_defined(prog, rep)
         t4_ntop(prog, rep)
+        # "a Unix-path address resolves to the address it denotes and prints back": the path stored in sun_path keeps its terminator,
+        # the address copies stay inside their objects (C15's bounded-copy rule on the address code)
+        from . import c15
+        c15.j3(prog, rep, units=("util/sock.c", "util/sock_util.c"))
+        t5_b64(prog, rep)
+        t5_hex(prog, rep)
         t2_padding(prog, rep)
         t3_escape(prog, rep)
+        t3_unicode(prog, rep)
     rep.require_min("T1-endian", 12)
     rep.require_min("T3-sepws", 5)
     rep.require_min("T4-sockaddr", 8)
